@@ -7,6 +7,9 @@
 package main
 
 import (
+	"strings"
+	"sort"
+	"os/exec"
 	"crypto/hmac"
 	"crypto/sha1"
 	"crypto/sha256"
@@ -72,7 +75,13 @@ type violation struct {
 func main() {
 	seed := flag.Uint64("seed", 1, "")
 	dur := flag.Duration("dur", 4*time.Second, "")
+	cold := flag.String("cold", "", "internal: cold-start child; the argument is the file with the expected answers")
+	coldRuns := flag.Int("coldruns", 12, "number of cold-start child processes")
 	flag.Parse()
+	if *cold != "" {
+		runCold(*cold)
+		return
+	}
 	var mu sync.Mutex
 	var viol []violation
 	var calls, kept int64
@@ -238,15 +247,180 @@ func main() {
 		atomic.StoreInt32(&done, 1)
 		wg.Wait()
 	}
+	// cold starts: fresh processes whose very first library calls happen concurrently (lazy initialisation, first use of
+	// the pools and tables under contention).  This (warm) process supplies the expected answers.
+	coldViol, coldRaces := coldStarts(*coldRuns, *seed)
+	for _, v := range coldViol {
+		report(v)
+	}
+	if coldRaces != "" {
+		fmt.Fprintln(os.Stderr, coldRaces)
+	}
 	if *otp.DefaultHOTPParam != defaultsH || *otp.DefaultTOTPParam != defaultsT {
 		report(violation{"defaults-changed", "Default*Param", fmt.Sprint(*otp.DefaultHOTPParam, *otp.DefaultTOTPParam), fmt.Sprint(defaultsH, defaultsT)})
 	}
 	out := map[string]any{
-		"coverage": map[string]any{"concurrent_calls": calls, "retained_strings_rechecked": kept, "configs": "goroutines x GOMAXPROCS: 64x16, 8x4, 2x2, 16x1, 1x1; adversary on both pools; random GCs", "race_detector": raceEnabled},
+		"coverage": map[string]any{"concurrent_calls": calls, "retained_strings_rechecked": kept, "configs": "goroutines x GOMAXPROCS: 64x16, 8x4, 2x2, 16x1, 1x1; adversary on both pools; random GCs", "race_detector": raceEnabled, "cold_start_processes": *coldRuns},
 		"violations": viol,
 	}
 	json.NewEncoder(os.Stdout).Encode(out)
 	if len(viol) > 0 {
 		os.Exit(1)
 	}
+}
+
+
+// ---- cold starts ----
+
+type coldCase struct {
+	Op   string `json:"op"`
+	Want string `json:"want"`
+}
+
+func coldAnswer(op string) string {
+	f := strings.SplitN(op, " ", 3)
+	key := "GEZDGNBVGY3TQOJQGEZDGNBVGY3TQOJQ"
+	switch f[0] {
+	case "list":
+		l := otp.ListSuites()
+		sort.Strings(l)
+		return strings.Join(l, ",")
+	case "known":
+		return fmt.Sprint(otp.IsKnownSuite(f[1]))
+	case "cfg":
+		return fmt.Sprintf("%+v", otp.SuiteConfigFromRaws(f[1]))
+	case "newraw":
+		s, err := otp.NewRawSuite(f[1])
+		if err != nil {
+			return "err"
+		}
+		return fmt.Sprintf("%s %+v", s.String(), s.Config())
+	case "hotp":
+		c, err := otp.GenerateHOTP(key, 7, nil)
+		return fmt.Sprint(c, err)
+	case "hotp8":
+		c, err := otp.GenerateHOTP(key, 7, &otp.Param{Digits: 8, Algorithm: otp.SHA512})
+		return fmt.Sprint(c, err)
+	case "totp":
+		c, err := otp.GenerateTOTP(key, time.Unix(59, 0), nil)
+		return fmt.Sprint(c, err)
+	case "vhotp":
+		ok, err := otp.ValidateHOTP(key, "162583", 7, nil)
+		return fmt.Sprint(ok, err)
+	case "ocra":
+		s, err := otp.NewRawSuite(f[1])
+		if err != nil {
+			return "err"
+		}
+		c, err := otp.GenerateOCRA(key, s, otp.OCRAInput{Counter: otp.To8ByteBigEndian(3), Challenge: []byte("12345678"), Password: make([]byte, 20), SessionInfo: []byte("s"), Timestamp: otp.To8ByteBigEndian(99)})
+		return fmt.Sprint(c, err != nil)
+	case "dec":
+		b, err := otp.DecodeSecret(f[1])
+		return fmt.Sprint(b, err != nil)
+	case "fromstr":
+		return fmt.Sprint(otp.DigitsFromStr(f[1]), otp.AlgorithmFromStr(f[1]), otp.Algorithm(1).String())
+	case "rnd":
+		s, err := otp.RandomSecret(otp.SHA1)
+		return fmt.Sprint(len(s), err)
+	case "url":
+		u, err := otp.GenerateTOTPURL(otp.URLParam{Issuer: "My Co", AccountName: "a@b", Secret: key})
+		if err != nil {
+			return "err"
+		}
+		return u.String()
+	}
+	return "?"
+}
+
+func coldOps() []string {
+	return []string{"list", "list", "known OCRA-1:HOTP-SHA1-6:QN08", "known nope", "cfg OCRA-1:HOTP-SHA256-8:C-QN08-PSHA1", "newraw OCRA-1:HOTP-SHA1-6:QN08",
+		"newraw OCRA-1:HOTP-SHA512-7:QN10-T5M", "newraw OCRA-1:HOTP-SHA1-6:C", "hotp", "hotp8", "totp", "vhotp", "ocra OCRA-1:HOTP-SHA1-6:QN08",
+		"ocra OCRA-1:HOTP-SHA512-8:C-QN08-PSHA1-S064-T1M", "dec gezdgnbvgy3tqojq", "fromstr 8", "fromstr SHA256", "rnd", "url"}
+}
+
+// runCold: the child.  Nothing of the library has run yet in this process; all operations start together.
+func runCold(expectFile string) {
+	data, _ := os.ReadFile(expectFile)
+	var cases []coldCase
+	json.Unmarshal(data, &cases)
+	n := len(cases) * 3
+	res := make([]string, n)
+	start := make(chan struct{})
+	var wg sync.WaitGroup
+	for i := 0; i < n; i++ {
+		wg.Add(1)
+		go func(i int) {
+			defer wg.Done()
+			defer func() {
+				if e := recover(); e != nil {
+					res[i] = fmt.Sprint("panic: ", e)
+				}
+			}()
+			<-start
+			res[i] = coldAnswer(cases[i%len(cases)].Op)
+		}(i)
+	}
+	close(start)
+	wg.Wait()
+	bad := 0
+	for i, r := range res {
+		if c := cases[i%len(cases)]; r != c.Want {
+			fmt.Printf("COLD-MISMATCH %q got %q want %q\n", c.Op, r, c.Want)
+			bad++
+		}
+	}
+	if bad > 0 {
+		os.Exit(1)
+	}
+}
+
+func coldStarts(runs int, seed uint64) (viol []violation, races string) {
+	self, err := os.Executable()
+	if err != nil || runs <= 0 {
+		return nil, ""
+	}
+	var cases []coldCase
+	for _, op := range coldOps() {
+		cases = append(cases, coldCase{op, coldAnswer(op)})
+	}
+	f, err := os.CreateTemp("", "stress-cold-*.json")
+	if err != nil {
+		return nil, ""
+	}
+	defer os.Remove(f.Name())
+	data, _ := json.Marshal(cases)
+	f.Write(data)
+	f.Close()
+	for k := 0; k < runs; k++ {
+		cmd := exec.Command(self, "-cold", f.Name())
+		cmd.Env = append(os.Environ(), fmt.Sprintf("GOMAXPROCS=%d", []int{16, 8, 4, 2}[k%4]))
+		out, err := cmd.CombinedOutput()
+		text := string(out)
+		if strings.Contains(text, "DATA RACE") && races == "" {
+			i := strings.Index(text, "WARNING: DATA RACE")
+			if i < 0 {
+				i = 0
+			}
+			races = text[i:]
+			if len(races) > 3000 {
+				races = races[:3000]
+			}
+		}
+		for _, l := range strings.Split(text, "\n") {
+			if strings.HasPrefix(l, "COLD-MISMATCH") && len(viol) < 5 {
+				viol = append(viol, violation{"cold-start: first concurrent use of the library gives a different answer", l, "", ""})
+			}
+		}
+		if err != nil && !strings.Contains(text, "COLD-MISMATCH") && !strings.Contains(text, "DATA RACE") && len(viol) < 5 {
+			viol = append(viol, violation{"cold-start child failed", trimTo(text, 300), "", ""})
+		}
+	}
+	return viol, races
+}
+
+func trimTo(s string, n int) string {
+	if len(s) > n {
+		return s[:n]
+	}
+	return s
 }
